@@ -1337,7 +1337,12 @@ class URL:
             raise TypeError("Invalid name type")
         if "/" in name:
             raise ValueError("Slash in name is not allowed")
-        name = PATH_QUOTER(name)
+        return self._with_raw_name(PATH_QUOTER(name), keep_query, keep_fragment)
+
+    def _with_raw_name(
+        self, name: str, keep_query: bool, keep_fragment: bool
+    ) -> "URL":
+        """Replace the last part of the path with an already encoded name."""
         if name in (".", ".."):
             raise ValueError(". and .. values are forbidden")
         parts = list(self.raw_parts)
@@ -1377,9 +1382,13 @@ class URL:
         if not name:
             raise ValueError(f"{self!r} has an empty name")
         old_suffix = self.raw_suffix
+        if "/" in suffix:
+            raise ValueError("Slash in name is not allowed")
+        # the existing name is already encoded, only the new suffix is quoted
+        suffix = PATH_QUOTER(suffix)
         name = name + suffix if not old_suffix else name[: -len(old_suffix)] + suffix
 
-        return self.with_name(name, keep_query=keep_query, keep_fragment=keep_fragment)
+        return self._with_raw_name(name, keep_query, keep_fragment)
 
     def join(self, url: "URL") -> "URL":
         """Join URLs
